@@ -1586,6 +1586,10 @@ func applyGC(cells []*btpb.Cell, rule *btapb.GcRule, now bigtable.Timestamp) []*
 		return cells[:si]
 	case *btapb.GcRule_MaxNumVersions:
 		n := int(rule.MaxNumVersions)
+		if n < 0 {
+			// Invalid rule; never use a negative count as a slice bound.
+			return cells
+		}
 		if len(cells) > n {
 			cells = cells[:n]
 		}
